@@ -4,7 +4,7 @@ import "math/rand"
 
 func init() {
 	register(recvProp{id: "C12", w: 1, gen: genC12,
-		rule: "for each generated inbound stream (mixed stanzas with text, entities, nested unknown elements; <r/>, <a/>), the connection is cut at EVERY byte offset of the stream (exhaustive per stream), SM on/off, plus write faults at each answer; one stream in three is read through the real XMPPTransport path (traffic logger + buffered decoder) over a scripted net.Conn whose last bytes arrive together with the read error; plus sessions over the real WebSocket transport whose TCP connection the peer resets (detected through the keepalive); goroutines of the library are counted after quiescence; distinct = (stream, offset); non-trivial = at least 2 complete stanzas before the cut"})
+		rule: "for each generated inbound stream (mixed stanzas with text, entities, nested unknown elements; <r/>, <a/>), the connection is cut at EVERY byte offset of the stream (exhaustive per stream), SM on/off, plus write faults at each answer (that write alone, or it and every later one); streams with a stream error in the middle (its handler leaving the connection alone, or replacing it as a StreamManager does) cut at every offset: the keepalive quit channel is sampled whenever the receive goroutine enters a callback or a transport call, so that the place where it is closed is compared with the model; one stream in three is read through the real XMPPTransport path (traffic logger + buffered decoder) over a scripted net.Conn whose last bytes arrive together with the read error; plus sessions over the real WebSocket transport whose TCP connection the peer resets (detected through the keepalive); goroutines of the library are counted after quiescence; distinct = (stream, offset); non-trivial = at least 2 complete stanzas before the cut"})
 }
 
 func genC12(r *rand.Rand, tier string) []interface{} {
@@ -30,7 +30,7 @@ func genC12(r *rand.Rand, tier string) []interface{} {
 			in := base
 			in.Cut = cut
 			if logged {
-				in.Logged, in.ErrWithData, in.LeakCheck = true, cut%2 == 1, false
+				in.Logged, in.ErrWithData = true, cut%2 == 1
 			}
 			out = append(out, in)
 		}
@@ -44,6 +44,46 @@ func genC12(r *rand.Rand, tier string) []interface{} {
 		for k := 1; k <= nr; k++ {
 			in := base
 			in.WFail = k
+			out = append(out, in)
+			in = base
+			in.WFrom = k // ... and every later one
+			out = append(out, in)
+		}
+	}
+	// streams with a stream error in the middle, cut at every offset: the keepalive quit channel is closed when the
+	// stream error arrives (before it is routed), what is complete behind it is still routed and answered, and the
+	// loss is reported once more by the cut; in every other stream the handler of the stream error replaces the
+	// connection (as a StreamManager does): the loop leaves it alone, no Disconnected event comes from it
+	nse := 2
+	if tier == "thorough" {
+		nse = 12
+	}
+	for s := 0; s < nse; s++ {
+		items := genItems(r, 1+r.Intn(3), false, false)
+		se := rItem{T: "serr", Tag: r.Intn(len(serrConds)), Repl: s%2 == 1}
+		items = append(items, se)
+		items = append(items, genItems(r, 2+r.Intn(3), false, false)...)
+		if s%4 >= 2 {
+			items = append(items, rItem{T: "r"})
+		}
+		for i := range items {
+			items[i].ID = i + 1
+			if items[i].T == "stanza" && items[i].Var%len(textPool) >= 6 {
+				items[i].Var -= items[i].Var % len(textPool)
+			}
+			items[i].render()
+		}
+		base := recvIn{SM: s%3 != 0, Items: items, Cut: -1, LeakCheck: true}
+		total := len(base.body())
+		for cut := 0; cut <= total; cut++ {
+			in := base
+			in.Cut = cut
+			out = append(out, in)
+		}
+		// the connection takes no write any more from the first / second answer on
+		for k := 1; k <= 2; k++ {
+			in := base
+			in.WFrom = k
 			out = append(out, in)
 		}
 	}
